@@ -259,6 +259,11 @@ theorem memo_run_eq (memoised : Bool) : ∀ (ops : List COp) (s s' : CState), Co
       simp only [runMemo]
       exact ih _ _ (by intro e he; simp [registerMemo] at he) (by simp [registerMemo, ht])
 
+/-- generated obligation: the flags `_determine_current_priv` (and every helper it calls) searches privilege
+    patterns with are exactly re.M | re.I — the assumption under which the model's device shows, in every
+    level, a prompt classified as that level's share group -/
+theorem classification_flags : classifyFlags = ["I", "M"] ∧ classifiesPrompts = true := by decide
+
 /-- generated obligation: `update_privilege_levels` reaches `cache_clear()` on every path -/
 theorem update_clears_cache : updateClearsCache = true := by decide
 
